@@ -271,10 +271,10 @@ pub fn run(ctx: &Ctx) -> Report {
     let mut rep = Report::new(ID, "exploration", ctx);
     rep.rule = "Cases: grammar-generated mapping ASTs (representable domain; classes without members, members without by-params entries, shared strings, non-ASCII and >127-byte / >16383-byte strings), a wide profile (up to 400 similar class names) and the corpus files. Oracle: independent layout decoder (header magic/version/counts, exact file length, zero padding, strictly sorted classes, member and by-params ranges tiling their sections in class order, sortedness inside classes, every offset the start of a sequentially decoded length-prefixed UTF-8 string or the absent sentinel where allowed) plus equality of the decoded records with the records the reference model derives from the AST, plus ProguardCache::test(). evaluations = files written and decoded. Non-trivial = distinct files with >=2 classes and >=1 by-params entry in a class other than the first.".into();
     rep.assumptions = vec!["format documentation in src/cache/mod.rs:1-34 and field lists of raw.rs (version 1)".into()];
-    let n = ctx.cases(50_000, 600_000);
+    let n = ctx.cases(50_000, 1_800_000);
     rep.run_stage("ast", || map_case(&cfg()), n, check_case);
-    rep.run_stage("tall", || tall_case(&cfg()), ctx.cases(200, 3000), check_case);
-    let nw = ctx.cases(100, 1500);
+    rep.run_stage("tall", || tall_case(&cfg()), ctx.cases(200, 9_000), check_case);
+    let nw = ctx.cases(100, 4_500);
     let max = ctx.tier.pick(150, 400);
     rep.run_stage("wide", move || super::c04::wide_case(max), nw, check_case);
     let corpus: Vec<super::c02::CorpusCase> = super::c02::corpus_files()
